@@ -307,7 +307,8 @@ fn c15_completion_session(rep: &mut CaseReport) {
     // the same library on disk, listed by `iwe contents`: every link it prints is a destination that leads back to a note
     // (names with spaces included), and the tool's own files under .iwe are not listed as notes
     let bin = mon::verif_root().join("harness/target/repo/release/iwe");
-    if bin.exists() {
+    // (not under Miri, which cannot spawn processes)
+    if bin.exists() && !cfg!(miri) {
         let dir = mon::scratch_dir("c15");
         for (k, t) in &lib {
             let p = dir.join(format!("{}.md", k));
